@@ -667,6 +667,21 @@ func (p *Planner) LookupConv(name string, file *ast.File, methods []*Method) (*C
 		}
 	} else {
 		obj = p.Pkg.Scope().Lookup(name)
+		if obj == nil {
+			// a function brought into the file scope by a dot import
+			for _, is := range file.Imports {
+				if is.Name == nil || is.Name.Name != "." {
+					continue
+				}
+				for _, imp := range p.Pkg.Imports() {
+					if strings.Trim(is.Path.Value, `"`) == imp.Path() {
+						if o := imp.Scope().Lookup(name); o != nil && o.Exported() {
+							obj = o
+						}
+					}
+				}
+			}
+		}
 	}
 	if fn, ok := obj.(*types.Func); ok {
 		sig := fn.Type().(*types.Signature)
